@@ -102,20 +102,8 @@ func SyncCallees(fn *ssa.Function) []*ssa.Function {
 			case *ssa.Defer:
 				add(x.Call.StaticCallee())
 			case *ssa.MakeClosure:
-				if !elsewhere[x] {
-					// stored in a local and sent later? follow one level: stores of this closure into cells that are sent
-					escapes := false
-					if refs := x.Referrers(); refs != nil {
-						for _, r := range *refs {
-							if _, isSt := r.(*ssa.Store); isSt {
-								// local function variables (sendAbort := func...) are called synchronously
-							}
-							_ = r
-						}
-					}
-					if !escapes {
-						add(x.Fn.(*ssa.Function))
-					}
+				if !elsewhere[x] && closureRunsHere(x) {
+					add(x.Fn.(*ssa.Function))
 				}
 			}
 		}
@@ -147,4 +135,94 @@ func SyncReachable(roots ...*ssa.Function) map[*ssa.Function]bool {
 		}
 	}
 	return seen
+}
+
+// closureRunsHere: the closure value may be invoked synchronously by the
+// creating function: it is called or deferred directly, kept in a local
+// function variable, or passed to a callee that calls that parameter. A
+// closure that is only stored (e.g. registered in a table) does not run here.
+func closureRunsHere(mc *ssa.MakeClosure) bool {
+	refs := mc.Referrers()
+	if refs == nil {
+		return false
+	}
+	for _, r := range *refs {
+		switch u := r.(type) {
+		case *ssa.Store:
+			if _, ok := u.Addr.(*ssa.Alloc); ok {
+				return true // local function variable
+			}
+		case ssa.CallInstruction:
+			cc := u.Common()
+			if cc.Value == ssa.Value(mc) {
+				return true
+			}
+			f := cc.StaticCallee()
+			for i, a := range cc.Args {
+				if a != ssa.Value(mc) {
+					continue
+				}
+				if f == nil || f.Blocks == nil {
+					return true // unknown callee may call it
+				}
+				idx := i
+				if f.Signature.Recv() != nil && !cc.IsInvoke() {
+					// Args include the receiver first for method calls; Params too
+				}
+				if idx < len(f.Params) && paramCalled(f, f.Params[idx], 0) {
+					return true
+				}
+			}
+		case *ssa.MakeInterface, *ssa.ChangeType:
+			return true
+		}
+	}
+	return false
+}
+
+func paramCalled(f *ssa.Function, p *ssa.Parameter, depth int) bool {
+	if depth > 3 {
+		return true
+	}
+	refs := p.Referrers()
+	if refs == nil {
+		return false
+	}
+	for _, r := range *refs {
+		switch u := r.(type) {
+		case ssa.CallInstruction:
+			cc := u.Common()
+			if cc.Value == ssa.Value(p) {
+				return true
+			}
+			g := cc.StaticCallee()
+			for i, a := range cc.Args {
+				if a == ssa.Value(p) {
+					if g == nil || g.Blocks == nil {
+						return true
+					}
+					if i < len(g.Params) && paramCalled(g, g.Params[i], depth+1) {
+						return true
+					}
+				}
+			}
+		case *ssa.Store, *ssa.MakeClosure, *ssa.Phi:
+			// stored or captured: conservatively treat captured-by-closure as called when that closure calls it
+			if mc, ok := r.(*ssa.MakeClosure); ok {
+				cf := mc.Fn.(*ssa.Function)
+				for i, b := range mc.Bindings {
+					if b == ssa.Value(p) && i < len(cf.FreeVars) {
+						if fr := cf.FreeVars[i].Referrers(); fr != nil {
+							for _, x := range *fr {
+								if ci, ok := x.(ssa.CallInstruction); ok && ci.Common().Value == ssa.Value(cf.FreeVars[i]) {
+									return true
+								}
+							}
+						}
+					}
+				}
+			}
+		}
+	}
+	return false
 }
